@@ -3,14 +3,34 @@ import TantivyModel.Proofs.Wand
 import TantivyModel.Proofs.PruneEarly
 import TantivyModel.Proofs.WandMachine
 import TantivyModel.Proofs.Bm25Q
+import TantivyModel.Proofs.BlockWandMain
+import TantivyModel.Proofs.BlockWandInter
 /-!
 # C06 — Top-K collection returns exactly the best K, with deterministic ties
 
 Property theorems only. `gt` is the strict part of the comparator (`compare(a,b) == Greater`),
 assumed to be a strict weak order (`StrictWeak`); `sel` is `select_nth_unstable_by`, assumed to
 satisfy its documented contract (`SelectNth`); both are universally quantified.
-Keys `NaN` (for which `partial_cmp(..).unwrap_or(Equal)` is not a weak order) and the sentinel
-`Score::MIN` (modelled as "no threshold") are outside the model.
+
+## What the model assumes about keys (NaN, the `Score::MIN` sentinel)
+
+* Every theorem about an order takes `hgt : StrictWeak gt`. For integer, date, string keys and
+  for floats WITHOUT NaN the comparators of `order.rs` are strict weak orders. With a NaN key
+  `NaturalComparator::compare = partial_cmp(..).unwrap_or(Equal)` makes NaN "equal" to every
+  key; incomparability is then not transitive (`1 ~ NaN ~ 2` but `1 < 2`) and `StrictWeak` is
+  FALSE. Nothing is claimed about the ORDER of a result containing NaN keys; the harness (part D)
+  still checks no panic / result size / no duplicates / true keys, and found the std sorts of
+  the collector panicking on the inconsistent comparator (known finding
+  `C06:nan-sort-key-sort-panics`); a NaN threshold rejecting every later, strictly better
+  comparable document is reported as an observation.
+* The threshold of the pruning callback is an `Option` here: `none` = "nothing to beat"
+  (`above gt k none = true`). The code uses the value `Score::MIN` (= `f32::MIN`) for `none` and
+  the strict test `score > threshold`, so the two agree exactly for scores `> f32::MIN`. A score
+  equal to `f32::MIN`, `-∞` or NaN is never offered by `for_each_pruning(Score::MIN, ..)`: such
+  documents are outside the model and missing from the real result (known finding
+  `C06:score-not-above-f32-min-never-collected`).
+* In the integer-score WAND theorems a threshold is a `Nat`, a document with total score 0 does
+  not match, and `θ₀ = 0` plays the role of the sentinel: positive scores only.
 -/
 namespace TantivyModel.C06
 open TantivyModel TantivyModel.TopN List
@@ -105,33 +125,25 @@ theorem C06_exhaustive_is_pruned (gt : α → α → Bool) (st : Heap α × Opti
     | cons c cs ih => simp only [map_cons, skipsBelow]; exact ih _
   rw [prunedRun_eq_forEach gt _ st h]; simp [Function.comp_def]
 
-/-
-FULL STATEMENT (not provable for the code as written):
-  theorem C06_merge_offset … (no `hasc`) :
-    mergeTopK gt sel K O fruits = topK (le gt) K O segs.flatten
-`merge_top_k` pushes the per-segment fruits — `into_vec()` / heap order, i.e. *unsorted* —
-into a `TopNComputer`, whose strict threshold is only correct for pushes in ascending address
-order. The proved part assumes that order (`hasc`); see `C06_merge_unsorted_counterexample`.
--/
-/-- `merge_fruits` + offset: if every per-segment fruit has the same best `O+K` as its segment
-(which `C06_topn_computer` / `C06_heap_topk` give) and the concatenated fruits are pushed in
-ascending address order, the result is entries `O .. O+K` of the global order — any number of
-segments. -/
-theorem C06_merge_offset_partial (gt : α → α → Bool) (hgt : StrictWeak gt) (K O : Nat)
-    (sel : List (Entry α) → List (Entry α)) (hsel : SelectNth gt (O + K) sel)
+/-- `merge_top_k` + offset (the code as fixed: all per-segment fruits sorted by `(key desc,
+address asc)`, then `skip(O).take(K)`): if every per-segment fruit has the same best `O+K` as its
+segment (which `C06_topn_computer` / `C06_heap_topk` give), the result is entries `O .. O+K` of
+the global order — any number of segments, the fruits in ANY order (`into_vec()` / heap order).
+Before the fix this needed the fruits in ascending address order and was false without it:
+`C06_merge_unsorted_counterexample`. -/
+theorem C06_merge_offset (gt : α → α → Bool) (hgt : StrictWeak gt) (K O : Nat)
     (fruits segs : List (List (Entry α)))
     (hfr : TopN.Forall₂ (fun f d => (isort (le gt) f).take (O + K) = (isort (le gt) d).take (O + K))
       fruits segs)
-    (hasc : AddrAsc fruits.flatten) (hnd : AddrNodup segs.flatten) :
-    mergeTopK gt sel K O fruits = topK (le gt) K O segs.flatten := by
+    (hndf : AddrNodup fruits.flatten) (hnd : AddrNodup segs.flatten) :
+    mergeTopK gt K O fruits = topK (le gt) K O segs.flatten := by
   unfold mergeTopK
   split
   · rename_i hK; subst hK; simp [topK]
-  · rw [(C06_topn_computer gt hgt (O + K) sel hsel _ hasc).1, topK_zero,
-      takeN_isort_flatten hgt (O + K) hfr hasc.nodup hnd]
+  · have e : ∀ X : List (Entry α), ((isort (le gt) X).drop O).take K = ((isort (le gt) X).take (O + K)).drop O := by
+      intro X; rw [drop_take]; congr 1; omega
     unfold topK
-    rw [drop_take]
-    congr 1; omega
+    rw [e, e, takeN_isort_flatten hgt (O + K) hfr hndf hnd]
 
 /-- associativity of the merge: the best N of a union only depend on the best N of each part,
 whatever the grouping (segments, threads). -/
@@ -163,23 +175,89 @@ theorem C06_topk_perm (gt : α → α → Bool) (hgt : StrictWeak gt) (K O : Nat
   unfold topK
   rw [isort_eq_of_perm (le_totalPreorder hgt) (hn.antisym hgt) hp]
 
-/-- end-to-end model (`Searcher::search` with a generic sort key): per-segment `TopNComputer`,
-`merge_top_k`, offset. Proved under the ascending-fruit hypothesis (see above). -/
-theorem C06_search_partial (gt : α → α → Bool) (hgt : StrictWeak gt) (K O : Nat)
+/-- end-to-end model (`Searcher::search` with a generic sort key): per-segment `TopNComputer`
+(documents pushed in ascending doc id, fruit = `into_vec()`), `merge_top_k`, offset = entries
+`O .. O+K` of the global order. -/
+theorem C06_search (gt : α → α → Bool) (hgt : StrictWeak gt) (K O : Nat)
     (sel : List (Entry α) → List (Entry α)) (hsel : SelectNth gt (O + K) sel)
     (segs : List (List (Entry α))) (hseg : ∀ d, d ∈ segs → AddrAsc d)
-    (hnd : AddrNodup segs.flatten)
-    (hasc : AddrAsc (segs.map (collectSegment gt sel (O + K))).flatten) :
+    (hnd : AddrNodup segs.flatten) :
     search gt sel K O segs = topK (le gt) K O segs.flatten := by
   unfold search
-  apply C06_merge_offset_partial gt hgt K O sel hsel _ segs _ hasc hnd
-  apply forall₂_map_left
-  intro d hd
-  have hinv := inv_pushAll hgt hsel d [] (Computer.new (O + K)) (inv_new gt _)
-    (by simpa using hseg d hd)
-  simp only [nil_append] at hinv
-  unfold collectSegment
-  rw [(intoVec_spec hgt hsel hinv).1, take_take]; simp
+  have hall : TopN.Forall₂ (fun f d => ((isort (le gt) f).take (O + K) = (isort (le gt) d).take (O + K)) ∧
+      (∀ x, x ∈ f → x ∈ d) ∧ AddrNodup f) (segs.map (collectSegment gt sel (O + K))) segs := by
+    apply forall₂_map_left
+    intro d hd
+    have hinv := inv_pushAll hgt hsel d [] (Computer.new (O + K)) (inv_new gt _)
+      (by simpa using hseg d hd)
+    simp only [nil_append] at hinv
+    unfold collectSegment
+    obtain ⟨h1, h2, h3⟩ := intoVec_spec hgt hsel hinv
+    exact ⟨by rw [h1, take_take]; simp, h2, h3⟩
+  exact C06_merge_offset gt hgt K O _ segs (hall.imp fun _ _ h => h.1)
+    (addrNodup_flatten_of_sub (hall.imp fun _ _ h => h.2) hnd) hnd
+
+/-- the live documents of a segment, as entries -/
+def aliveEntries (cs : List (Cand α × Bool)) : List (Entry α) :=
+  ((cs.map (·.1)).filter (·.alive)).map (·.entry)
+
+/-
+FULL STATEMENT (not proved): `C06_search_end_to_end` — the same with `runs` replaced by the real
+drivers: for every segment the run of `Weight::for_each_pruning` (`block_wand_single_scorer`,
+`block_wand`, `block_wand_intersection`, `for_each_pruning_scorer`) on the segment's scorers with
+the `TopNHeap` callback. The link is proved at the level of the drivers' final states
+(`C06_wand_single_skipsBelow`, `C06_wand_union_skipsBelow`: equal to the exhaustive loop for every
+callback with non-decreasing thresholds, GIVEN `UB_max` / `UB_block`), and `C06_threshold_monotone`
+says the `TopNHeap` callback is such a callback; what is not formalised is the translation between
+the two callback vocabularies (`σ × Nat` with integer scores there, `Heap α × Option α` with an
+abstract key here). In the theorem below a driver is therefore represented by WHICH documents it
+skipped, and the bound hypotheses enter as `hskip`.
+-/
+/-- End to end, score path (`TopDocs::order_by_score`, any number of segments, any offset):
+each segment is collected by a pruning driver into a `TopNHeap` of capacity `O+K` — the driver
+scores the candidates in doc order and may skip any document that was not above the threshold
+then or earlier in the run (`hskip`; this is what `UB_max` and `UB_block` buy: the WAND drivers
+skip nothing else, `C06_wand_*_skipsBelow`) —, the fruit is the heap content in ANY order
+(`into_vec()`), and `merge_top_k` with `doc_range = O..O+K` returns exactly entries `O .. O+K` of
+all live documents of all segments in `(score desc, address asc)` order. Composition of
+`C06_pruning_sound_early` (per segment), `C06_merge_offset` (merge + offset). -/
+theorem C06_search_end_to_end_partial (gt : α → α → Bool) (hgt : StrictWeak gt) (K O : Nat)
+    (runs : List (List (Cand α × Bool))) (fruits : List (List (Entry α)))
+    (hasc : ∀ cs, cs ∈ runs → AddrAsc (cs.map (·.1.entry)))
+    (hskip : ∀ cs, cs ∈ runs → skipsBelowEarly gt (Heap.new (O + K), none) [] cs = true)
+    (hfruit : TopN.Forall₂ (fun f cs => f ~ (prunedRun gt (Heap.new (O + K), none) cs).1.heap) fruits runs)
+    (hnd : AddrNodup (runs.map aliveEntries).flatten) :
+    mergeTopK gt K O fruits = topK (le gt) K O (runs.map aliveEntries).flatten := by
+  have hle := le_totalPreorder hgt
+  have hall : TopN.Forall₂ (fun f d => ((isort (le gt) f).take (O + K) = (isort (le gt) d).take (O + K)) ∧
+      (∀ x, x ∈ f → x ∈ d) ∧ AddrNodup f) fruits (runs.map aliveEntries) := by
+    apply TopN.Forall₂.map_right
+    refine hfruit.mem_right.imp ?_
+    intro f cs hfc
+    obtain ⟨hperm, hcs⟩ := hfc
+    · have hheap := C06_pruning_sound_early gt hgt (O + K) cs (hasc cs hcs) (hskip cs hcs)
+      rw [topK_zero] at hheap
+      have halive : AddrNodup (aliveEntries cs) := by
+        have h1 : AddrAsc (cs.map (·.1.entry)) := hasc cs hcs
+        refine (h1.nodup).sublist ?_
+        have : (cs.map (·.1.entry)) = ((cs.map (·.1)).map (·.entry)) := by simp
+        rw [this]
+        exact Sublist.map _ filter_sublist
+      have hheapnd : AddrNodup (prunedRun gt (Heap.new (O + K), none) cs).1.heap := by
+        rw [hheap]
+        exact (halive.perm (isort_perm _).symm).sublist (take_sublist _ _)
+      have hfnd : AddrNodup f := hheapnd.perm hperm.symm
+      refine ⟨?_, ?_, hfnd⟩
+      · rw [isort_eq_of_perm hle (hfnd.antisym hgt) hperm, hheap]
+        show (isort (le gt) ((isort (le gt) (aliveEntries cs)).take (O + K))).take (O + K) = _
+        rw [isort_of_sorted hle ((hheap ▸ hheapnd).antisym hgt) ((isort_sorted hle _).take _), take_take]
+        simp
+      · intro x hx
+        have : x ∈ (prunedRun gt (Heap.new (O + K), none) cs).1.heap := hperm.subset hx
+        rw [hheap] at this
+        exact mem_isort.mp (mem_of_mem_take this)
+  exact C06_merge_offset gt hgt K O fruits _ (hall.imp fun _ _ h => h.1)
+    (addrNodup_flatten_of_sub (hall.imp fun _ _ h => h.2) hnd) hnd
 
 /-- Paging: for exactly comparable keys, the pages `O = 0, K, 2K, …` concatenated are the
 complete ordered result list, which is a permutation of the matches: every match exactly once. -/
@@ -283,17 +361,60 @@ theorem C06_wand_pivot_moves_valid (θ : Nat) (ps : List Wand.Postings) (ms : Li
     (Wand.findPivot θ ts 0 = none → ∀ d, Wand.unionTotal ps d ≤ θ) :=
   Wand.pivot_dead θ ps ms hlen ts hperm hs hub
 
-/-
-NOT YET PROVED (stated): `C06_wand_union_skipsBelow`, `C06_wand_intersection_skipsBelow` — the
-complete `block_wand` loop (block-max refinement of the pivot, `block_max_was_too_low_advance_one_scorer`,
-`align_scorers`, `advance_all_scorers_on_pivot`) and `block_wand_intersection` (leader windows,
-per-candidate suffix bounds) equal the exhaustive loop given `UB_max` and `UB_block`. Proved so far: the
-single-scorer driver completely; for the union driver the two skip justifications (pivot rule,
-block rule) and the theorem that justified skips — even early ones — give the exhaustive result.
-Missing: the loop model showing that `block_wand` skips ONLY by these two rules and scores the
-pivot with all matching scorers aligned; `block_wand_intersection` is not modelled. Both are tied
-to the property by the end-to-end and callback-level comparisons.
--/
+/-- `block_wand` (union of two or more term scorers + TopDocs), the CONCRETE loop: the Lean mirror
+`BlockWand.blockWand` follows the Rust function statement by statement (`find_pivot_doc`, the
+shallow seeks and the block-max sum, `block_max_was_too_low_advance_one_scorer` with
+`restore_ordering`, `align_scorers` with `swap_remove`, `advance_all_scorers_on_pivot`, the
+`is_sorted` debug assertion) and is compared call by call and bit by bit with
+`Weight::for_each_pruning` by the harness (`bwand`). For EVERY callback whose thresholds never
+decrease: whenever the mirrored loop completes, it ends in the state of the exhaustive loop over
+all documents `0 .. TERMINATED` with the total score `Σ clauses` — i.e. it made exactly the
+callback calls of the exhaustive loop for documents above the running threshold — PROVIDED
+each scorer's postings are ascending and below `TERMINATED`, bounded by its `max_score`
+(`UB_max`, false on the pinned tree: `C06_UB_max_counterexample`), and every posting is bounded
+by the block-max of its block (`UB_block`) (`BlockWand.WF`). In the proof every iteration is a
+move of the pruning machine `Wand.Run`: the too-low branch and `align_scorers` are dead moves
+(pivot rule with `UB_max`, block rule with `UB_block`), the scoring step evaluates the smallest
+current document with all scorers containing it aligned, `None` from `find_pivot_doc` is a
+justified stop. The outcomes `assertFailed` (the mirrored `debug_assert!(is_sorted)`),
+`skipAhead` (a skip reader not on the pivot's block after `shallow_seek`; cannot happen for
+`doc() <= pivot`, reported by the harness if the model ever answers it) and `outOfFuel` are
+not covered by the statement. -/
+theorem C06_wand_union_skipsBelow {σ : Type} (cb : σ → Nat → Nat → σ × Nat) (R : σ → Nat → Prop)
+    (hcb : Wand.MonoCb cb R) (fuel : Nat) (s : σ) (θ : Nat) (hR : R s θ)
+    (scorers : List (BlockWand.TS Nat)) (hwf : ∀ x, x ∈ scorers → BlockWand.WF x) (out : σ × Nat)
+    (h : BlockWand.blockWand cb fuel (s, θ) scorers = .ok out) :
+    out = Wand.exhRange cb (Wand.unionTotal (scorers.map (·.rest))) 0 BlockWand.T (s, θ) :=
+  BlockWand.blockWand_eq_exhaustive hcb fuel s θ hR scorers hwf out h
+
+
+/-- `block_wand_intersection` (conjunction of two or more term scorers + TopDocs), the CONCRETE
+loop: the Lean mirror `BlockWand.blockWandInter` follows the Rust function statement by statement
+(stable sort by `size_hint`, the leader's 128-document windows cut at the smallest
+`last_doc_in_block` of all scorers, the early exits on the global maxima and on
+`!has_remaining_docs()`, the window skip on the sum of block maxima, the branch-free candidate
+filter `leader_score > threshold - Σ block maxima` with the threshold of the window's start, the
+suffix sums of the secondaries' block maxima, the per-candidate seeks with the `doc() > candidate`
+and `seek != candidate` exits and the suffix-bound pruning) and is compared call by call and bit
+by bit with `Weight::for_each_pruning` by the harness (`binter`). For EVERY callback whose
+thresholds never decrease (the stale filter threshold needs this): whenever the mirrored loop
+completes, it ends in the state of the exhaustive loop over all documents `0 .. TERMINATED` with
+the conjunction's total score (`Σ clauses` if every scorer contains the document, no match
+otherwise) — PROVIDED each scorer's postings are ascending and below `TERMINATED`, bounded by
+its `max_score` (`UB_max`) and by the block maximum of their block (`UB_block`)
+(`BlockWand.WF`), and `doc_freq ≤ 128·k` means that the first `k` blocks hold the whole posting
+list (`WFI.noRem`, the meaning of `has_remaining_docs`). Exact scores: the candidate filter is
+read over the integers (`a > θ - b ⟺ a + b > θ`); in `f32` the rounded subtraction can drop a
+document that beats the threshold by an ulp (observed, inside the property's rounding allowance).
+Outcomes `assertFailed` (fewer than two scorers), `skipAhead` (a skip reader ahead of the
+window's block; cannot happen, reported by the harness if the model ever answers it) and
+`outOfFuel` are not covered. -/
+theorem C06_wand_intersection_skipsBelow {σ : Type} (cb : σ → Nat → Nat → σ × Nat) (R : σ → Nat → Prop)
+    (hcb : Wand.MonoCb cb R) (fuel : Nat) (s : σ) (θ : Nat) (hR : R s θ)
+    (scorers : List (BlockWand.TS Nat)) (hwf : ∀ x, x ∈ scorers → BlockWand.WFI x) (out : σ × Nat)
+    (h : BlockWand.blockWandInter cb fuel (s, θ) scorers = .ok out) :
+    out = Wand.exhRange cb (Wand.interTotal (scorers.map (·.rest))) 0 BlockWand.T (s, θ) :=
+  BlockWand.blockWandInter_eq_exhaustive hcb fuel s θ hR scorers hwf out h
 
 /-! ## the score bounds (exact arithmetic) and the refuted hypothesis `UB_max` -/
 
@@ -406,17 +527,19 @@ def tieSegs : List (List (Entry Nat)) :=
   [[⟨0, 0⟩, ⟨1, 1⟩, ⟨1, 2⟩, ⟨2, 3⟩, ⟨2, 4⟩], [⟨1, 100⟩, ⟨2, 101⟩],
    [⟨2, 200⟩, ⟨2, 201⟩, ⟨2, 202⟩, ⟨1, 203⟩, ⟨2, 204⟩]]
 
-/-- `C06_merge_offset` / `C06_search` WITHOUT the ascending-fruit hypothesis is FALSE for the
-mechanism as coded: with a `select_nth` that satisfies its contract (`selReversed_selectNth`) the
+/-- WHY `merge_top_k` had to be fixed (finding `C06:merge-ties-unsorted-fruits`, fixed in the
+tree): for the mechanism as coded BEFORE the fix (`searchPushed`: fruits pushed into a
+`TopNComputer`) `C06_search` is FALSE: with a `select_nth` that satisfies its contract (`selReversed_selectNth`) the
 per-segment fruits (`into_vec`, unsorted) are pushed into the merge `TopNComputer` out of address
 order, its strict threshold drops document `200` although it ties with, and precedes, the
 returned document `201`. (Reproduced on the real `Searcher::search`: known finding
 `C06:merge-ties-unsorted-fruits`.) -/
 theorem C06_merge_unsorted_counterexample :
-    search gtNat (selReversed gtNat 4) 3 1 tieSegs = [⟨2, 4⟩, ⟨2, 101⟩, ⟨2, 201⟩] ∧
+    searchPushed gtNat (selReversed gtNat 4) 3 1 tieSegs = [⟨2, 4⟩, ⟨2, 101⟩, ⟨2, 201⟩] ∧
+    search gtNat (selReversed gtNat 4) 3 1 tieSegs = [⟨2, 4⟩, ⟨2, 101⟩, ⟨2, 200⟩] ∧
     topK (le gtNat) 3 1 tieSegs.flatten = [⟨2, 4⟩, ⟨2, 101⟩, ⟨2, 200⟩] ∧
     (∀ d, d ∈ tieSegs → AddrAsc d) ∧ AddrNodup tieSegs.flatten := by
-  refine ⟨by decide, by decide, ?_, ?_⟩
+  refine ⟨by decide, by decide, by decide, ?_, ?_⟩
   · intro d hd
     simp only [tieSegs, mem_cons, not_mem_nil, or_false] at hd
     rcases hd with rfl | rfl | rfl <;> (unfold AddrAsc; decide)
@@ -491,6 +614,71 @@ example : Wand.runMachine (fun (s : List Nat) d sc => (s ++ [d], sc)) Wand.union
 /-- conjunction: document 1 is only in the first list (no match), document 2 is in both -/
 example : Wand.runMachine (fun (s : List Nat) d sc => (s ++ [d], sc)) Wand.interTotal [.seek 0 2, .eval 2, .seek 1 6] exPs ([], 4)
     = Wand.exhRange (fun (s : List Nat) d sc => (s ++ [d], sc)) (Wand.interTotal exPs) 0 6 ([], 4) := by decide
+/-! non-vacuity of the theorems about the mirrored loops: two well-formed scorers (one decoded
+tail block each) on which both loops complete, skip documents 1 and 5, and score document 2 -/
+def exA : BlockWand.TS Nat :=
+  { rest := [(1, 3), (2, 3)], maxScore := 3, blocks := [], skip := 0, tailMax := 3, tailLoaded := true, cost := 2 }
+def exB : BlockWand.TS Nat :=
+  { rest := [(2, 4), (5, 2)], maxScore := 4, blocks := [], skip := 0, tailMax := 4, tailLoaded := true, cost := 2 }
+
+theorem exA_wfi : BlockWand.WFI exA where
+  wf :=
+    { asc := by unfold Wand.Asc; decide
+      lt := by decide
+      ubMax := by decide
+      ubBlk := by
+        intro p hp
+        refine ⟨fun l bm h => ?_, fun _ => ?_⟩
+        · simp [exA] at h
+        · simp only [exA, mem_cons, not_mem_nil, or_false] at hp
+          rcases hp with rfl | rfl <;> decide
+      blocksAsc := Pairwise.nil }
+  noRem := by
+    intro k hk p _
+    have h2 : 2 ≤ 128 * k := hk
+    show ([] : List (Nat × Nat)).length < k
+    simp only [length_nil]; omega
+
+theorem exB_wfi : BlockWand.WFI exB where
+  wf :=
+    { asc := by unfold Wand.Asc; decide
+      lt := by decide
+      ubMax := by decide
+      ubBlk := by
+        intro p hp
+        refine ⟨fun l bm h => ?_, fun _ => ?_⟩
+        · simp [exB] at h
+        · simp only [exB, mem_cons, not_mem_nil, or_false] at hp
+          rcases hp with rfl | rfl <;> decide
+      blocksAsc := Pairwise.nil }
+  noRem := by
+    intro k hk p _
+    have h2 : 2 ≤ 128 * k := hk
+    show ([] : List (Nat × Nat)).length < k
+    simp only [length_nil]; omega
+
+example : (BlockWand.blockWand (fun (s : List Nat) d sc => (s ++ [d], sc)) 20 ([], 4) [exA, exB]).isOk ([2], 7) = true := by
+  decide
+example : (BlockWand.blockWandInter (fun (s : List Nat) d sc => (s ++ [d], sc)) 20 ([], 4) [exA, exB]).isOk ([2], 7) = true := by
+  decide
+/-- what the theorem buys on the example: the exhaustive loop over all 2^31 - 1 documents (not
+computable by evaluation) ends in the state the pruning loop computed -/
+example : (([2], 7) : List Nat × Nat) = Wand.exhRange (fun (s : List Nat) d sc => (s ++ [d], sc))
+    (Wand.unionTotal [exA.rest, exB.rest]) 0 BlockWand.T ([], 4) := by
+  refine C06_wand_union_skipsBelow _ _ recordCb_mono 20 [] 4 trivial [exA, exB] ?_ _ ?_
+  · intro x hx
+    simp only [mem_cons, not_mem_nil, or_false] at hx
+    rcases hx with rfl | rfl
+    · exact exA_wfi.wf
+    · exact exB_wfi.wf
+  · have h : (BlockWand.blockWand (fun (s : List Nat) d sc => (s ++ [d], sc)) 20 ([], 4) [exA, exB]).isOk ([2], 7) = true := by
+      decide
+    cases hr : BlockWand.blockWand (fun (s : List Nat) d sc => (s ++ [d], sc)) 20 ([], 4) [exA, exB] with
+    | ok o => rw [hr] at h; simp only [BlockWand.Outcome.isOk, decide_eq_true_eq] at h; rw [h]
+    | assertFailed => rw [hr] at h; cases h
+    | skipAhead => rw [hr] at h; cases h
+    | outOfFuel => rw [hr] at h; cases h
+
 def exTerms : List Wand.TermList := [⟨[(2, 3), (9, 1)], 3⟩, ⟨[(5, 4)], 4⟩, ⟨[(5, 2), (6, 2)], 2⟩]
 example : Wand.findPivot 5 exTerms 0 = some 5 ∧ Wand.totalScore exTerms 2 = 3 ∧ Wand.totalScore exTerms 5 = 6 := by
   decide
